@@ -11,7 +11,7 @@ from vf.sim.model import Model
 
 PROP_ID = 'C45'
 LEVEL = 'exploration'
-BUDGET = {'quick': 400, 'thorough': 16000}
+BUDGET = {'quick': 400, 'thorough': 14000}
 MANIFEST = {
     'engine': 'S',
     'technique': 'PBT on the stepped scheduler: constructed absolute-trigger '
